@@ -126,6 +126,10 @@ def run(ctx):
             final = "commit"
         elif point == "reject_integrity":
             opts["sri"] = ref.sri("sha256", data + b"x")
+            if rng.random() < 0.3:
+                # the digest of OTHER data, declared in an algorithm the writer does not compute (it hashes with sha256):
+                # whatever an implementation makes of foreign algorithms, this one must be refused
+                opts["sri"] = ref.sri(rng.choice(["sha512", "sha1", "sha384"]), data + b"x")
             others = [e for e in model.index.values() if model.content.get(ref.sri_address(e["integrity"])) not in (None, data)
                       and e["integrity"].startswith("sha256-")]
             if others and rng.random() < 0.5:
